@@ -75,6 +75,7 @@ fn cfg(tier: Tier) -> ProgCfg {
             idx_delete: 1,
             link_to: 2,
             abandon: 3,
+            commit_dropped: 0,
             damage_content: 4,
             damage_bucket: 4,
             foreign: 1,
